@@ -13,6 +13,7 @@
 #include <string.h>
 #include <ctype.h>
 #include <errno.h>
+#include <math.h>
 
 /* ========================================================================
  * Label Table
@@ -146,7 +147,9 @@ static bool parse_double(const char **p, double *val) {
     char *end;
     errno = 0;
     double v = strtod(*p, &end);
-    if (end == *p || errno != 0) return false;
+    if (end == *p) return false;
+    /* ERANGE is also set for every denormal result (underflow); only overflow is an error */
+    if (errno != 0 && (v == HUGE_VAL || v == -HUGE_VAL)) return false;
     *val = v;
     *p = end;
     return true;
